@@ -58,6 +58,8 @@ err_t bignIdExtract(octet id_privkey[], octet id_pubkey[],
 	if (!bignIsOperable(params))
 		return ERR_BAD_PARAMS;
 	// проверить oid_der
+	if (oid_len != SIZE_MAX && !memIsValid(oid_der, oid_len))
+		return ERR_BAD_INPUT;
 	if (oid_len == SIZE_MAX || oidFromDER(0, oid_der, oid_len)  == SIZE_MAX)
 		return ERR_BAD_OID;
 	// создать состояние
@@ -176,6 +178,8 @@ err_t bignIdSign(octet id_sig[], const bign_params* params,
 	if (!bignIsOperable(params))
 		return ERR_BAD_PARAMS;
 	// проверить oid_der
+	if (oid_len != SIZE_MAX && !memIsValid(oid_der, oid_len))
+		return ERR_BAD_INPUT;
 	if (oid_len == SIZE_MAX || oidFromDER(0, oid_der, oid_len)  == SIZE_MAX)
 		return ERR_BAD_OID;
 	// проверить rng
@@ -289,6 +293,8 @@ err_t bignIdSign2(octet id_sig[], const bign_params* params,
 	if (!bignIsOperable(params))
 		return ERR_BAD_PARAMS;
 	// проверить oid_der
+	if (oid_len != SIZE_MAX && !memIsValid(oid_der, oid_len))
+		return ERR_BAD_INPUT;
 	if (oid_len == SIZE_MAX || oidFromDER(0, oid_der, oid_len)  == SIZE_MAX)
 		return ERR_BAD_OID;
 	// проверить t
@@ -427,6 +433,8 @@ err_t bignIdVerify(const bign_params* params, const octet oid_der[],
 	if (!bignIsOperable(params))
 		return ERR_BAD_PARAMS;
 	// проверить oid_der
+	if (oid_len != SIZE_MAX && !memIsValid(oid_der, oid_len))
+		return ERR_BAD_INPUT;
 	if (oid_len == SIZE_MAX || oidFromDER(0, oid_der, oid_len)  == SIZE_MAX)
 		return ERR_BAD_OID;
 	// создать состояние
